@@ -47,6 +47,8 @@ pub struct Case {
     pub style: AttrStyle,
     pub lang: Lang,
     pub prefixed: bool,
+    /// further serde arguments in separate attributes next to rename / rename_all
+    pub extra_attrs: bool,
 }
 
 pub fn gen(ch: &mut Chooser, max_fields: usize) -> Case {
@@ -77,12 +79,17 @@ pub fn gen(ch: &mut Chooser, max_fields: usize) -> Case {
         (rule, None)
     };
     let style = *ch.pick("attr_style", &ATTR_STYLES);
+    let extra_attrs = ch.flag("extra_serde_attributes");
     for f in fields.iter_mut() {
         f.style = style;
+        if extra_attrs {
+            // `default` does not change the key; with separate attributes it sits before or after `rename`
+            f.default = DefaultKind::Bare;
+        }
     }
     let lang = *ch.pick("lang", &ALL_LANGS);
     let prefixed = ch.flag("cfg");
-    Case { in_variant, own_rule, enum_rule, fields, style, lang, prefixed }
+    Case { in_variant, own_rule, enum_rule, fields, style, lang, prefixed, extra_attrs }
 }
 
 pub fn program(c: &Case) -> File {
@@ -90,14 +97,23 @@ pub fn program(c: &Case) -> File {
         let mut v = Variant::new("Var", VKind::Struct(c.fields.clone()));
         v.rename_all = c.own_rule.map(String::from);
         v.style = c.style;
+        if c.extra_attrs {
+            v.extra_serde = vec!["alias = \"OtherName\"".into()];
+        }
         let mut e = Item::enumm("Outer", vec![Variant::new("First", VKind::Unit), v]);
         e.rename_all = c.enum_rule.map(String::from);
         e.style = c.style;
+        if c.extra_attrs {
+            e.extra_serde = vec!["deny_unknown_fields".into()];
+        }
         File::single(vec![e])
     } else {
         let mut s = Item::strukt("Outer", c.fields.clone());
         s.rename_all = c.own_rule.map(String::from);
         s.style = c.style;
+        if c.extra_attrs {
+            s.extra_serde = vec!["deny_unknown_fields".into()];
+        }
         File::single(vec![s])
     }
 }
@@ -265,7 +281,7 @@ pub fn run(args: &[String]) -> i32 {
         accs,
         &stats,
         json!({"containers": ["struct", "struct variant of a tagged enum"], "fields_per_container": max_fields, "idents": IDENTS.len(), "renames": RENAMES.len(),
-               "rename_all": RULES.len(), "placements": ["own container", "enclosing enum only", "both"], "attr_styles": 4, "languages": 6, "configs": 2}),
+               "rename_all": RULES.len(), "placements": ["own container", "enclosing enum only", "both"], "attr_styles": 4, "extra_serde_attributes": [false, true], "languages": 6, "configs": 2}),
     );
     require_nonvacuous(&mut rep);
     rep.cov("rule", json!("full product of identifier × serde(rename) × rename_all rule × placement × attribute spelling × language × prefix/package configuration; every case rendered to Rust, run through parse→reconcile→generate, parsed back with the language extractor and compared with serde's key (vendored case.rs + precedence rename > rename_all > ident). non-trivial = expected key differs from the Rust identifier or from the target identifier. states = distinct rendered Rust inputs."));
